@@ -177,6 +177,9 @@ Proof.
   destruct (p <=? x); [reflexivity|]. eapply Permutation_trans; [apply perm_swap|]. apply perm_skip. exact IH.
 Qed.
 
+Lemma nth_in_tl {A} (l : list A) d n : (1 <= n)%nat -> (n < length l)%nat -> In (nth n l d) (tl l).
+Proof. destruct l as [|x r]; cbn [length]; [lia|]. destruct n as [|n]; [lia|]. intros _ H. cbn [nth tl]. apply nth_In. lia. Qed.
+
 Lemma hts_sorted hp k : forall h, StronglySorted N.le (hts hp h k).
 Proof.
   induction k as [|k IH]; intros h; cbn [hts]; [constructor|].
@@ -259,6 +262,9 @@ Proof. rewrite app_length in Hlen. lia. Qed.
 
 Lemma P_nth x : x <= hp -> nth_error pc (N.to_nat x) = Some (P x).
 Proof. intros H. apply nth_error_nth'. lia. Qed.
+
+Lemma P_in_tl x : 1 <= x -> x <= hp -> In (P x) (tl pc).
+Proof. intros H1 H2. unfold P. apply nth_in_tl; lia. Qed.
 
 Lemma P_in x : x <= hp -> In (P x) pc.
 Proof. intros H. eapply nth_error_In. apply P_nth. exact H. Qed.
@@ -454,24 +460,25 @@ Qed.
 
 Section Now.
 Variable now : N.
-Hypothesis Hpre : forall b, In b pc -> prevalidate_block cfg team_key b now = Ok tt.
+(* every block of the peer's chain other than genesis (which is never requested) passes prevalidation at this clock reading *)
+Hypothesis Hpre : forall b, In b (tl pc) -> prevalidate_block cfg team_key b now = Ok tt.
 
 (* ---- one block of the peer's chain handed to the post-processor ---- *)
-Lemma deliver_lt L x : L0 <= L -> L <= hp + 1 -> x < L -> deliver' (nd L) (P x) now = (nd L, Rejected 761, false).
+Lemma deliver_lt L x : L0 <= L -> L <= hp + 1 -> 1 <= x -> x < L -> deliver' (nd L) (P x) now = (nd L, Rejected 761, false).
 Proof.
-  intros H1 H2 Hx. apply (deliver_dup cfg genesis_addr team_key _ _ _ (P x)); [apply Hpre, P_in; lia|].
+  intros H1 H2 Hx1 Hx. apply (deliver_dup cfg genesis_addr team_key _ _ _ (P x)); [apply Hpre, P_in_tl; lia|].
   apply nd_store_lt; assumption.
 Qed.
 
 Lemma deliver_eq L : L0 <= L -> L <= hp -> exists amb, deliver' (nd L) (P L) now = (nd (L + 1), Accepted, amb).
 Proof.
   intros H1 H2. destruct (nd_succ L H1 H2) as (amb & Ha). exists amb.
-  apply deliver_accept; [apply Hpre, P_in; exact H2|exact Ha].
+  pose proof k0_pos. apply deliver_accept; [apply Hpre, P_in_tl; lia|exact Ha].
 Qed.
 
 Lemma deliver_gt L x : L0 <= L -> L < x -> x <= hp -> deliver' (nd L) (P x) now = (nd L, Rejected 762, false).
 Proof.
-  intros H1 H2 Hx. pose proof k0_pos. unfold deliver. rewrite (Hpre _ (P_in x Hx)). unfold add_block.
+  intros H1 H2 Hx. pose proof k0_pos. unfold deliver. rewrite (Hpre _ (P_in_tl x ltac:(lia) Hx)). unfold add_block.
   change (b_hash (P x)) with (hsh x). rewrite (nd_store_ge L x) by lia. cbn [guard bind].
   rewrite (P_prev x) by lia. rewrite (nd_store_ge L (x - 1)) by lia. reflexivity.
 Qed.
@@ -482,7 +489,7 @@ Lemma post_block_ref s L q x :
 Proof.
   intros Hn Hq H1 H2 HQ Hx1 Hx2. unfold post_block, proc. cbn [fst snd]. rewrite Hn, Hq.
   destruct (N.ltb_spec x L) as [Hlt|Hge].
-  - rewrite (deliver_lt L x H1 H2 Hlt). replace (761 =? 762) with false by reflexivity.
+  - rewrite (deliver_lt L x H1 H2 Hx1 Hlt). replace (761 =? 762) with false by reflexivity.
     change (b_hash (P x)) with (hsh x). rewrite (queue_remove_ent q x HQ Hx2). reflexivity.
   - destruct (N.eqb_spec x L) as [->|Hne].
     + destruct (deliver_eq L H1 Hx2) as (amb & ->). reflexivity.
@@ -580,7 +587,7 @@ Proof.
       destruct HS as (_ & _ & _ & HQ). cbn [snd] in HQ. destruct (aq a) as [|p q]; [destruct Hx|].
       destruct Hx as [<-|[]]. apply HQ. left. reflexivity. }
     assert (Hpv : forall x, In x (map f ul) -> prevalidate_block cfg team_key (fst x) (snd x) = Ok tt).
-    { intros x Hx. apply in_map_iff in Hx. destruct Hx as (i & <- & Hi). cbn [f fst snd]. apply Hpre, P_in. apply Hulb. exact Hi. }
+    { intros x Hx. apply in_map_iff in Hx. destruct Hx as (i & <- & Hi). cbn [f fst snd]. apply Hpre, P_in_tl; apply Hulb; exact Hi. }
     rewrite (recv_all_ok cfg team_key (map f ul) s1 Hpv). cbn [s1 sy_buf app].
     rewrite flush_drain. cbn [sy_buf set_buf].
     (* the post-processor takes the blocks lowest height first *)
@@ -664,7 +671,7 @@ Qed.
 Theorem sync_fork_rounds s :
   sy_node s = n0 -> sy_queue s = [] -> sy_buf s = [] ->
   (sy_diff s < cdp \/ (sy_diff s = cdp /\ sy_height s = hp)) ->
-  exists bound, forall now, (forall b, In b pc -> prevalidate_block cfg team_key b now = Ok tt) ->
+  exists bound, forall now, (forall b, In b (tl pc) -> prevalidate_block cfg team_key b now = Ok tt) ->
     forall k, (bound <= k)%nat ->
       let s' := srounds cfg genesis_addr team_key peer now k s in
       sy_node s' = apply_ext' n0 theirs /\ sy_buf s' = [] /\
